@@ -8,9 +8,9 @@ namespace ZV.SourceGraph
 /-- Structural well-formedness of a finished graph: every id is in range and each import edge is
 listed by exactly its importer. -/
 structure Graph.Wf (g : Graph) : Prop where
-  import_range : ∀ i a b, g.imports[i]? = some (a, b) → a < g.sources.length ∧ b < g.sources.length
-  listed_range : ∀ s n, g.sources[s]? = some n → ∀ i ∈ n.imports, ∃ b, g.imports[i]? = some (s, b)
-  sig_range : ∀ s n t, g.sources[s]? = some n → n.signature = some t → t < g.sources.length
+  import_range : ∀ (i a b : Nat), g.imports[i]? = some (a, b) → a < g.sources.length ∧ b < g.sources.length
+  listed_range : ∀ (s : Nat) (n : Node), g.sources[s]? = some n → ∀ i ∈ n.imports, ∃ b : Nat, g.imports[i]? = some (s, b)
+  sig_range : ∀ (s : Nat) (n : Node) (t : Nat), g.sources[s]? = some n → n.signature = some t → t < g.sources.length
 
 /-- `a` depends directly on `b` (through an import or its companion signature). -/
 def Graph.Edge (g : Graph) (a b : Nat) : Prop := ∃ d ∈ g.dependencies a, g.target d = b
@@ -28,7 +28,7 @@ inductive Graph.Reach1 (g : Graph) : Nat → Nat → Prop
 def Graph.IsCycle (g : Graph) (steps : List Dep) : Prop :=
   steps ≠ [] ∧
   (∀ d ∈ steps, d ∈ g.dependencies (g.origin d)) ∧
-  (∀ i (d e : Dep), steps[i]? = some d → steps[i + 1]? = some e → g.target d = g.origin e) ∧
+  (∀ (i : Nat) (d e : Dep), steps[i]? = some d → steps[i + 1]? = some e → g.target d = g.origin e) ∧
   (∀ d e, steps.getLast? = some d → steps.head? = some e → g.target d = g.origin e)
 
 end ZV.SourceGraph
